@@ -36,6 +36,9 @@ def view(state, uname, fsdirs):
             await repo.list_snapshots(header=False, columns=[SC.NAME, SC.FILE_COUNT, SC.TIMESTAMP, SC.SIZE, SC.NOTE])
         out['ls'] = [tuple(c.strip() for c in line.split('\t')) for line in o.getvalue().splitlines() if line.strip()]
         with W.captured() as (o, e):
+            await repo.list_snapshots(header=False, columns=[SC.NAME])     # a narrower column selection must not widen the view
+        out['ls_names'] = {line.strip() for line in o.getvalue().splitlines() if line.strip()}
+        with W.captured() as (o, e):
             await repo.list_files(header=False, columns=[FC.SNAPSHOT_NAME, FC.PATH])
         out['lf'] = [tuple(c.strip() for c in line.split('\t')) for line in o.getvalue().splitlines() if line.strip()]
         await repo.close()
@@ -50,8 +53,15 @@ def view(state, uname, fsdirs):
 
 def view_problems(state, fsdirs):
     ps = []
-    for uname, u in state.users.items():
-        v = view(state, uname, fsdirs)
+    for uname in state.users:
+        ps += user_view_problems(state, uname, view(state, uname, fsdirs), fsdirs)
+    return ps
+
+
+def user_view_problems(state, uname, v, fsdirs):
+    ps = []
+    u = state.users[uname]
+    if True:
         fam = u['family']
         fam_snaps = {e['name']: e for e in state.ledger if state.users[e['owner']]['family'] == fam}
         own = {e['name']: e for e in state.ledger if e['owner'] == uname}
@@ -59,6 +69,9 @@ def view_problems(state, fsdirs):
         if set(seen) != set(fam_snaps):
             ps.append({'what': 'listing-visibility', 'user': u['kind'], 'extra': len(set(seen) - set(fam_snaps)),
                        'missing': len(set(fam_snaps) - set(seen))})
+        if 'ls_names' in v and v['ls_names'] != set(fam_snaps):
+            ps.append({'what': 'listing-visibility', 'user': u['kind'], 'columns': 'name only',
+                       'extra': len(v['ls_names'] - set(fam_snaps)), 'missing': len(set(fam_snaps) - v['ls_names'])})
         for name, row in seen.items():
             details_hidden = all(c == '--' for c in row[1:])
             if name in own and details_hidden:
@@ -82,6 +95,89 @@ def view_problems(state, fsdirs):
                 ps.append({'what': 'restore-scope', 'user': u['kind'], 'got': sorted(v['restored']), 'want': sorted(want)})
         if v['mutations']:
             ps.append({'what': 'read-only-command-mutated-backend', 'user': u['kind']})
+    return ps
+
+
+def reunlock_problems(state, fsdirs):
+    """ONE Repository object used by two users in turn: unlocked as u1, who looks at everything it may see, then
+    unlocked again (no close) as u2. What u2 sees and can do through that object must follow u2's key alone."""
+    import shutil
+    ps = []
+    names = list(state.users)
+    for u1 in names:
+        for u2 in names:
+            if u1 == u2:
+                continue
+            store = W.Store(state.o)
+            sc = H.worker_scratch()
+            target = sc.sub()
+            v = {}
+            victim = [e for e in state.ledger if e['owner'] == u1]
+
+            async def go():
+                usr1, usr2 = H.user_obj(state, u1), H.user_obj(state, u2)
+                repo = await W.a_open(store, usr1, N=2)
+                with W.captured():
+                    await repo.list_snapshots()
+                    await repo.list_files()
+                    t1 = sc.sub()
+                    try:
+                        await repo.restore(path=t1)
+                    except Exception:
+                        pass
+                    shutil.rmtree(t1, ignore_errors=True)
+                    if usr2 is None or usr2.key is None:
+                        await repo.unlock()
+                    else:
+                        await repo.unlock(password=usr2.password, key=usr2.key)
+                with W.captured() as (o, e):
+                    await repo.list_snapshots(header=False, columns=[SC.NAME, SC.FILE_COUNT, SC.TIMESTAMP, SC.SIZE, SC.NOTE])
+                v['ls'] = [tuple(c.strip() for c in line.split('\t')) for line in o.getvalue().splitlines() if line.strip()]
+                with W.captured() as (o, e):
+                    await repo.list_snapshots(header=False, columns=[SC.NAME])
+                v['ls_names'] = {line.strip() for line in o.getvalue().splitlines() if line.strip()}
+                with W.captured() as (o, e):
+                    await repo.list_files(header=False, columns=[FC.SNAPSHOT_NAME, FC.PATH])
+                v['lf'] = [tuple(c.strip() for c in line.split('\t')) for line in o.getvalue().splitlines() if line.strip()]
+                m0 = len(store.mutations)
+                v['restore_exc'] = None
+                with W.captured():
+                    try:
+                        await repo.restore(path=target)
+                    except Exception as ex:
+                        v['restore_exc'] = ex
+                v['mutations'] = len(store.mutations) - m0
+                v['foreign_delete'] = None
+                if victim:
+                    with W.captured():
+                        try:
+                            await repo.delete_snapshots([victim[0]['name']], confirm=False)
+                            v['foreign_delete'] = 'accepted'
+                        except RX.ReplicatError:
+                            v['foreign_delete'] = 'refused'
+                        except Exception as ex:
+                            v['foreign_delete'] = repr(ex)[:100]
+                with W.captured():
+                    await repo.close()
+
+            try:
+                W.run(go)
+            except Exception as ex:
+                ps.append({'what': 'reunlock-run-failed', 'user': state.users[u2]['kind'], 'first': state.users[u1]['kind'],
+                           'err': repr(ex)[:200]})
+                shutil.rmtree(target, ignore_errors=True)
+                continue
+            v['restored'] = {p_[len(str(target)):]: d[0] for p_, d in W.read_tree(target).items()}
+            shutil.rmtree(target, ignore_errors=True)
+            for p_ in user_view_problems(state, u2, v, fsdirs):
+                ps.append(dict(p_, after_unlocked_as=state.users[u1]['kind'], what=p_['what']))
+            if victim and v['foreign_delete'] != 'refused':
+                ps.append({'what': 'foreign-delete-not-refused', 'user': state.users[u2]['kind'],
+                           'victim': state.users[u1]['kind'], 'after_unlocked_as': state.users[u1]['kind'],
+                           'exc': v['foreign_delete']})
+            if store.o != state.o:
+                ps.append({'what': 'foreign-delete-changed-objects', 'user': state.users[u2]['kind'],
+                           'after_unlocked_as': state.users[u1]['kind']})
     return ps
 
 
@@ -112,6 +208,7 @@ def foreign_delete_problems(state, fsdirs):
 
 
 MENU = ['F1', 'F2']
+REUNLOCK_DEPTH = 2     # states within this many commands also get the one-object/two-users pass (all ordered pairs)
 
 
 def expand(state):
@@ -137,8 +234,12 @@ def expand(state):
             if any(not rd.owns_chunk_name(n) for n in ups):
                 vs.append((dict(sig0, what='upload-under-foreign-name'), {'hist': new.hist}))
         k = H.canon(new)
-        for p in view_problems(new, fsdirs) + foreign_delete_problems(new, fsdirs):
-            vs.append((dict(sig0, what=p['what'], viewer=p.get('user')), {'hist': new.hist, 'problem': p}))
+        extra = reunlock_problems(new, fsdirs) if len(new.hist) <= REUNLOCK_DEPTH else []
+        for p in view_problems(new, fsdirs) + foreign_delete_problems(new, fsdirs) + extra:
+            sig = dict(sig0, what=p['what'], viewer=p.get('user'))
+            if 'after_unlocked_as' in p:
+                sig['same_object_first_unlocked_as'] = p['after_unlocked_as']
+            vs.append((sig, {'hist': new.hist, 'problem': p}))
         out.append((ev, new, k, vs))
     return out
 
